@@ -178,6 +178,9 @@ func c04EnvFor(tmpl string) map[string]interface{} {
 	if c04MuMentions(tmpl) {
 		c04MuEnv(m)
 	}
+	if c04SgMentions(tmpl) {
+		c04SgEnv(m, tmpl)
+	}
 	return m
 }
 
